@@ -68,7 +68,9 @@ class Exec:
         if len(parts) < 2:
             return None
         ty, meth = parts[-2], parts[-1]
-        where = {"State": "task/state.rs", "Snapshot": "task/state.rs", "Remote": "task/remote.rs"}
+        if ty == "Shared" and meth == "drain_sync":
+            return self.find("src/lib.rs", "drain_sync")
+        where = {"State": "task/state.rs", "Snapshot": "task/state.rs", "Remote": "task/remote.rs", "Local": "task/local.rs"}
         if ty in where:
             c = [f for k, f in self.fns.items() if where[ty] in k and k.endswith("::" + meth)
                  and re.search(r"_1: &(?:mut )?" + ty, f.sig)]
@@ -179,12 +181,13 @@ class Exec:
             (r"ArrayQueue::<TaskId>::push$", q_push), (r"ArrayQueue::<TaskId>::pop$", q_pop),
             (r"Result::<\(\), TaskId>::is_err$", is_err),
             (r"TaskQueue::make_hot$", make_hot),
+            (r"SendWrapper::<TaskQueue>::get_unchecked$", lambda I, a, path, callee: ("opaque", "task-queue")),
             (r"^Waker::wake_by_ref$", wake_driver),
             (r"^yield_now$|hint::spin_loop$", yield_now),
             (r"AbortOnPanic", guard),
         ]
 
-    def run_schedule(self, path, n_remote, cap, iterations, same_task, preempt_bound=None):
+    def run_schedule(self, path, n_remote, cap, iterations, same_task, preempt_bound=None, n_local=0):
         W = type("W", (), {})()
         W.violation = None
         W.hot = []
@@ -233,6 +236,20 @@ class Exec:
             yield from I.call_fn(sched_fn, [Ref(Cell(rem))], path)
             tasks[t]["returned"] = True
 
+        W.e_parked = False
+        local_sched_fn = self.find("task/local.rs", "schedule", "Local") if n_local else None
+
+        def local(t):
+            # external-loop mode (compio-compat, custom loops on the driver fd): while compio waits for its fd, the foreign
+            # loop runs other code on the *same* thread, which wakes a compio task through its (local) waker
+            yield ("block", lambda: W.e_parked)
+            path.trace.append(("F", "step", "publish work for task %d (same thread, foreign loop)" % t))
+            tasks[t]["work"] = True
+            tasks[t]["published"] += 1
+            loc = Struct({0: Cell(Ref(Cell(tasks[t]["header"])))})
+            yield from I.call_fn(local_sched_fn, [Ref(Cell(loc))], path)
+            tasks[t]["returned"] = True
+
         def executor():
             for it in range(iterations):
                 yield from I.call_fn(drain_fn, [shared_ref, ("opaque", "task-queue")], path)
@@ -244,12 +261,16 @@ class Exec:
                     tasks[t]["work"] = False
                 # nothing hot: park unless a wake-up is pending
                 if not W.woken:
+                    W.e_parked = True
                     yield ("block", lambda: W.woken)
+                    W.e_parked = False
                 W.woken = False
 
         threads = {"E": executor()}
         for i in range(n_remote):
             threads["R%d" % (i + 1)] = remote(i + 1, 0 if same_task else i)
+        if n_local:
+            threads["F"] = local(0)
         blocked = {}
         alive = set(threads)
         verdict = "ok"
@@ -293,7 +314,7 @@ class Exec:
         return verdict, steps
 
 
-def explore_schedules(ex, n_remote, cap, iterations, same_task, seed=0, max_paths=400000, preempt_bound=None):
+def explore_schedules(ex, n_remote, cap, iterations, same_task, seed=0, max_paths=400000, preempt_bound=None, n_local=0):
     from explore import _expand
     stack = [[]]
     npaths = steps = queries = 0
@@ -302,7 +323,7 @@ def explore_schedules(ex, n_remote, cap, iterations, same_task, seed=0, max_path
         dec = stack.pop()
         p = Path(dec, seed)
         try:
-            verdict, st = ex.run_schedule(p, n_remote, cap, iterations, same_task, preempt_bound)
+            verdict, st = ex.run_schedule(p, n_remote, cap, iterations, same_task, preempt_bound, n_local)
         except Infeasible:
             _expand(stack, dec, p, upto=p.pos)
             continue
